@@ -5,6 +5,7 @@ import Fips204.Spec.Sample
 import Fips204.Lemmas.SpecCodec
 import Fips204.Lemmas.Samplers
 import Fips204.Props.C15
+import Fips204.Lemmas.KeygenOk
 namespace Fips204.Impl
 open Fips204 Fips204.Gen
 
@@ -214,5 +215,108 @@ theorem sampleInBall_is_algorithm_29 (m : Mode) (O : Oracles) (hO : OracleOk O) 
       rw [sum_band1 c hT.2 0, hn]; simp
     rw [dassert_dec m _ _ d1, ok_bind, dassert_dec m _ _ d2, ok_bind, pure_eq]
     rfl
+
+
+/-! ### RejBoundedPoly / ExpandS -/
+
+theorem band_u8_15 : ∀ z : Fin 256, band .u8 (z.val : Int) 15 = ((z.val % 16 : Nat) : Int) := by decide +kernel
+
+theorem rejBoundedLoop_is_spec (m : Mode) (eta : Int) (he : eta = 2 ∨ eta = 4) : ∀ (fuel : Nat) (s : List Nat) (acc : List Int), (∀ b ∈ s, b < 256) →
+    rejBoundedLoop m false eta fuel s acc = ofSpec "hashing.rs:rej_bounded_poly:stream" (Spec.rejBounded eta fuel s acc) := by
+  intro fuel
+  induction fuel with
+  | zero => intro s acc _; rfl
+  | succ n ih =>
+    intro s acc hs
+    unfold rejBoundedLoop Spec.rejBounded
+    by_cases hl : acc.length ≥ 256
+    · rw [if_pos hl, if_pos hl]; rfl
+    · rw [if_neg hl, if_neg hl]
+      cases s with
+      | nil => rfl
+      | cons z rest =>
+        have hz : z < 256 := hs z List.mem_cons_self
+        have hr : ∀ b ∈ rest, b < 256 := fun b hb => hs b (List.mem_cons_of_mem _ hb)
+        simp only []
+        have e15 : band .u8 (z : Int) 15 = ((z % 16 : Nat) : Int) := band_u8_15 ⟨z, hz⟩
+        rw [e15, Props.C15.coeff_from_half_byte_spec m eta _ he (by omega), ok_bind]
+        have e16 : ((z : Int) / 16) = ((z / 16 : Nat) : Int) := by omega
+        rw [e16, Props.C15.coeff_from_half_byte_spec m eta _ he (by omega), ok_bind]
+        have c1 : ((z % 16 : Nat) : Int) = (z : Int) % 16 := by omega
+        have c2 : ((z / 16 : Nat) : Int) = (z : Int) / 16 := by omega
+        rw [c1, c2]
+        exact ih rest _ hr
+
+theorem rejBoundedPoly_is_spec (m : Mode) (O : Oracles) (hO : OracleOk O) (eta : Int) (he : eta = 2 ∨ eta = 4) (rho : List Nat) (hr : rho.length = 66) :
+    rejBoundedPoly m O false eta rho = ofSpec "hashing.rs:rej_bounded_poly:stream" (Spec.rejBoundedPoly eta (O.h rho (1088 * O.fuelScale))) := by
+  unfold rejBoundedPoly Spec.rejBoundedPoly
+  have d : (rho.length == 66) = true := by rw [hr]; rfl
+  rw [dassert_dec m _ _ d, ok_bind, hO.hlen]
+  exact rejBoundedLoop_is_spec m eta he _ _ _ (hO.hbyte rho _)
+
+theorem mapM_some_mem {α β} (g : α → Option β) : ∀ (l : List α) (ys : List β), l.mapM g = some ys → ∀ y ∈ ys, ∃ x ∈ l, g x = some y := by
+  intro l
+  induction l with
+  | nil => intro ys h y hy; simp [List.mapM_nil] at h; subst h; simp at hy
+  | cons x xs ih =>
+    intro ys h y hy
+    rw [List.mapM_cons] at h
+    cases hg : g x with
+    | none => rw [hg] at h; cases h
+    | some b =>
+      rw [hg] at h
+      cases hm : List.mapM g xs with
+      | none => rw [hm] at h; cases h
+      | some bs =>
+        rw [hm] at h
+        have : ys = b :: bs := by cases h; rfl
+        subst this
+        rcases List.mem_cons.mp hy with rfl | hy'
+        · exact ⟨x, List.mem_cons_self, hg⟩
+        · obtain ⟨x', hx', hgx'⟩ := ih bs hm y hy'
+          exact ⟨x', List.mem_cons_of_mem _ hx', hgx'⟩
+
+/-- **`expand_s` is FIPS 204 Algorithm 33 (`ExpandS`) as written**, for every seed of 64 bytes, eta in {2, 4} -/
+theorem expandS_is_algorithm_33 (m : Mode) (O : Oracles) (hO : OracleOk O) (p : ParamSet) (he : p.eta = 2 ∨ p.eta = 4) (rho : List Nat) (hr : rho.length = 64) :
+    expandS m O false p rho =
+      ofSpec "hashing.rs:rej_bounded_poly:stream" (Spec.expandS (fun x => O.h x (1088 * O.fuelScale)) p.eta p.k p.l rho) := by
+  unfold expandS Spec.expandS
+  have f1 : (fun r => rejBoundedPoly m O false p.eta (rho ++ [r % 256, 0])) =
+      (fun r => ofSpec "hashing.rs:rej_bounded_poly:stream" (Spec.rejBoundedPoly p.eta (O.h (rho ++ [r % 256, 0]) (1088 * O.fuelScale)))) := by
+    funext r; exact rejBoundedPoly_is_spec m O hO p.eta he _ (by simp [hr])
+  have f2 : (fun r => rejBoundedPoly m O false p.eta (rho ++ [(r + p.l) % 256, 0])) =
+      (fun r => ofSpec "hashing.rs:rej_bounded_poly:stream" (Spec.rejBoundedPoly p.eta (O.h (rho ++ [(r + p.l) % 256, 0]) (1088 * O.fuelScale)))) := by
+    funext r; exact rejBoundedPoly_is_spec m O hO p.eta he _ (by simp [hr])
+  rw [f1, f2, mapM_ofSpec, mapM_ofSpec]
+  have range_of : ∀ (q : List Int) (rr : List Nat), rr.length = 66 → Spec.rejBoundedPoly p.eta (O.h rr (1088 * O.fuelScale)) = some q →
+      ∀ x ∈ q, -p.eta ≤ x ∧ x ≤ p.eta := by
+    intro q rr hrr hq
+    have hnp := rejBoundedPoly_np m O hO p.eta he rr hrr
+    rw [rejBoundedPoly_is_spec m O hO p.eta he rr hrr, hq] at hnp
+    exact (NoPanic.ok_elim hnp).2
+  cases h1 : (List.range p.l).mapM (fun r => Spec.rejBoundedPoly p.eta (O.h (rho ++ [r % 256, 0]) (1088 * O.fuelScale))) with
+  | none => rfl
+  | some s1 =>
+    simp only [ofSpec, ok_bind]
+    cases h2 : (List.range p.k).mapM (fun r => Spec.rejBoundedPoly p.eta (O.h (rho ++ [(r + p.l) % 256, 0]) (1088 * O.fuelScale))) with
+    | none => rfl
+    | some s2 =>
+      simp only [ok_bind]
+      have eta0 : -2147483647 ≤ p.eta ∧ p.eta ≤ 2147483648 := by rcases he with h | h <;> omega
+      have r1 : ∀ q ∈ s1, ∀ x ∈ q, -p.eta ≤ x ∧ x ≤ p.eta := by
+        intro q hq
+        obtain ⟨r, _, hg⟩ := mapM_some_mem _ _ _ h1 q hq
+        exact range_of q _ (by simp [hr]) hg
+      have r2 : ∀ q ∈ s2, ∀ x ∈ q, -p.eta ≤ x ∧ x ≤ p.eta := by
+        intro q hq
+        obtain ⟨r, _, hg⟩ := mapM_some_mem _ _ _ h2 q hq
+        exact range_of q _ (by simp [hr]) hg
+      obtain ⟨bs1, hbs1, _, hbt1⟩ := mapM_ok_len (fun r => isInRange m r p.eta p.eta) (fun r => r ∈ s1) (fun b => b = true)
+        (fun r hr' => ⟨true, isInRange_true m r p.eta p.eta eta0 (r1 r hr'), rfl⟩) s1 (fun a ha => ha)
+      have hall1 : bs1.all id = true := by rw [List.all_eq_true]; intro b hb'; exact hbt1 b hb'
+      obtain ⟨bs2, hbs2, _, hbt2⟩ := mapM_ok_len (fun r => isInRange m r p.eta p.eta) (fun r => r ∈ s2) (fun b => b = true)
+        (fun r hr' => ⟨true, isInRange_true m r p.eta p.eta eta0 (r2 r hr'), rfl⟩) s2 (fun a ha => ha)
+      have hall2 : bs2.all id = true := by rw [List.all_eq_true]; intro b hb'; exact hbt2 b hb'
+      simp only [hbs1, hbs2, ok_bind, pure_eq, hall1, hall2, dassertM_true]
 
 end Fips204.Impl
